@@ -215,6 +215,7 @@ func init() {
 					check(d, histCase{defaultCfg, base, input, nil, "path-shapes", idx}, -1, io.Fields)
 				}
 			})
+			famConfiguredPorts(c, eachState)
 		},
 		rule: "parse results and every state of generated histories of setters and in-place resolutions, plus all single/pairs of edge setter calls on 58 start URLs, plus the bounded-exhaustive path-shape family (all sequences of up to 4 segments over {empty, ., .., a, %2e, %2E%2e, C|} x separators x 4 scheme classes x 4 endings, with and without base), under the default parser and under six option configurations that satisfy the theorem's side condition cfg_okm; the extracted Coq predicate inv_obs (16 clauses) is evaluated on the implementation's getter values with the configuration in force",
 	}
@@ -240,6 +241,7 @@ func init() {
 			}
 			famHist(c, defaultCfg, 10000*c.Scale, 6, "ssssrcR", true, allButVerrs, "setters+resolve+clone", eachState)
 			famEdgeHist(c, defaultCfg, allButVerrs, "edge-pairs", false, eachState)
+			famConfiguredPorts(c, eachState)
 			// the accessor laws do not depend on the configuration (Inv_acc_obs_any): also under the options that
 			// let other host shapes through (lax host parsing, host functions) and change special-ness
 			for _, name := range []string{"lax", "postGsb", "preSem", "lax+postGsb", "specialX", "specialMany", "collapse+lax+skipTrailSlash"} {
@@ -306,6 +308,11 @@ func init() {
 				c13Check(c, hc, steps, start)
 			})
 			famEdgeTwo(c, defaultCfg, allButVerrs, "edge-two-handles", func(d *Driver, hc histCase, h *implHist, steps []Step, start Obs) {
+				c13Check(c, hc, steps, start)
+			})
+			// with validation-error reporting on, the recorded errors are a getter too (ValidationErrors)
+			rep := cfgFromDesc("report")
+			famHist(c, rep, 6000*c.Scale, 8, "RcsssprR", true, allFields, "two-handles:report", func(d *Driver, hc histCase, h *implHist, steps []Step, start Obs) {
 				c13Check(c, hc, steps, start)
 			})
 		},
@@ -618,6 +625,38 @@ func famEdgeHist(c *Ctx, cfg *Cfg, fields []int, fam string, withSP bool,
 		h, steps, start := c.cmpHist(d, cfg, base, s, hops, fields, fam, i)
 		if each != nil && h != nil {
 			each(d, histCase{cfg, base, s, hops, fam, i}, h, steps, start)
+		}
+	})
+}
+
+// famConfiguredPorts: a parser whose special-scheme table is configured (sc => 99, gopher => 70 besides the standard ones):
+// the configured default port reaching a URL by every route (parse, port / host / protocol setters, resolution)
+func famConfiguredPorts(c *Ctx, each func(d *Driver, cs histCase, h *implHist, steps []Step, start Obs)) {
+	cfg := cfgFromDesc("specialAdd")
+	starts := []string{"sc://h:99/a", "gopher://example.net:70/1/docs", "sc://h/", "gopher://h:7070/", "http://h:99/", "http://h:70/x", "sc://u:p@h:99/?q#f", "gopher://h:80/", "https://h:70/"}
+	var seqs [][]Op
+	for _, v := range []string{"99", "70", "80", "443", "", "0099"} {
+		seqs = append(seqs, []Op{{K: "s", W: 5, A: v}})
+	}
+	for _, v := range []string{"g:99", "g:70", "g:80", "g"} {
+		seqs = append(seqs, []Op{{K: "s", W: 3, A: v}})
+	}
+	for _, v := range []string{"sc", "gopher", "http", "https", "ws"} {
+		seqs = append(seqs, []Op{{K: "s", W: 0, A: v}}, []Op{{K: "s", W: 5, A: "99"}, {K: "s", W: 0, A: v}}, []Op{{K: "s", W: 5, A: "70"}, {K: "s", W: 0, A: v}})
+	}
+	for _, v := range []string{"//g:99/x", "//g:70", "x", "?q", "sc://k:99/", "gopher://k:70/"} {
+		seqs = append(seqs, []Op{{K: "r", A: v}}, []Op{{K: "R", A: v}})
+	}
+	seqs = append(seqs, nil)
+	c.Pool.Run(len(starts)*len(seqs), func(d *Driver, i int) {
+		s, hops := starts[i%len(starts)], seqs[i/len(starts)]
+		h, steps, start := c.cmpHist(d, cfg, nil, s, hops, allButVerrs, "configured-default-port", i)
+		if each != nil && h != nil {
+			if start.Kind == "U" {
+				steps = append([]Step{{A: start.Fields}}, steps...)
+				hops = append([]Op{{K: "T"}}, hops...)
+			}
+			each(d, histCase{cfg, nil, s, hops, "configured-default-port", i}, h, steps, start)
 		}
 	})
 }
